@@ -88,12 +88,15 @@ func ReplayInputs[T any](t interface{ Fatal(...any) }) []T {
 	dec := json.NewDecoder(bytesReader(data))
 	for dec.More() {
 		var line struct {
-			In T `json:"in"`
+			In *T `json:"in"`
 		}
 		if err := dec.Decode(&line); err != nil {
 			t.Fatal(err)
 		}
-		res = append(res, line.In)
+		if line.In == nil {
+			continue // e.g. the driver's verdict appended to a replay file
+		}
+		res = append(res, *line.In)
 	}
 	return res
 }
